@@ -534,6 +534,11 @@ impl RtpTransport {
         *session = Some(Arc::new(Mutex::new(srtp_session)));
     }
 
+    /// Whether an SRTP session has been installed with [`Self::start_srtp`].
+    pub fn srtp_started(&self) -> bool {
+        self.srtp_session.lock().is_some()
+    }
+
     pub fn register_listener_sync(&self, ssrc: u32, tx: mpsc::Sender<(RtpPacket, SocketAddr)>) {
         let mut listeners = self.listeners.lock();
         listeners.bind_ssrc_route(ssrc, tx);
